@@ -38,4 +38,37 @@ CHECKS = {
         'note': 'As C01. Known findings: let-shadowing clobbers the outer binding; names used in inline Python / repetition bounds are not '
                 'captured when an expression is spilled or passed as an argument. Activation isolation rests on CPython local-variable semantics.',
     },
+    'C07': {
+        'category': 'proof',
+        'technique': 'contract-based deductive verification: ghost-state loop invariant on the real _run (extracted from the template), abstract generators, z3',
+        'text': 'The trampoline _run (both calling conventions, extracted from the translator template on every run) is proved with ghost '
+                'state: at most one generator is ever created per (callee, position) key, the memo is written once per key with that key\'s final '
+                'triple, and every value sent into a waiting generator is None (first activation) or the single recorded answer of the request it '
+                'waits on. Holds for ANY protocol-conforming generator behaviour, all inputs, unbounded. Wiring obligations: every rule invocation '
+                'in emitted code is a driver request; ignored rules are referenced, not inlined; argument rules share the key of direct references.',
+        'design_ref': 'DESIGN.md 6 C07',
+        'note': 'Assumed (requires): requested key not already on the stack (no left recursion). Running time itself is not observed. '
+                'Generator protocol is what the fragment/rule contracts establish. Trusted: VC generator, z3, CPython dict/tuple hashing (== keys).',
+    },
+    'C08': {
+        'category': 'proof',
+        'technique': 'contract-based deductive verification: postconditions and safety VCs on _run, _finalize_parse_info, _position_at, error functions; schematic entry-point check',
+        'text': 'The three outcomes are postconditions of _run over the ghost answer of the start request; "no other exception" is the conjunction '
+                'of discharged safety VCs (index in range, pop from non-empty, unpack arity, key present, callee is an error function) in _run, '
+                '_finalize_parse_info (any raw span, incl. zero-width at end of input), _position_at, _raise_errorN, _extract_excerpt, line/column map; '
+                'every public entry point is shown on emitted text to be _run over the right implementation with the documented defaults.',
+        'design_ref': 'DESIGN.md 6 C08',
+        'note': 'Shift clause (parse(text,k) vs text[k:]) only on paper. visit() and the class-body fragment enter by contract (C15, C05/C10). User code assumed non-raising.',
+    },
+    'C09': {
+        'category': 'proof',
+        'technique': 'contract-based deductive verification: loop invariant over nl/lastnl spec functions, strings as ropes (linear arithmetic), lemma by induction, G-fpos on every fragment',
+        'text': '_map_index_to_line_and_column proved against recursive spec functions (line = 1 + line breaks before, column = 1 + offset in line) '
+                'for str and bytes; _extract_excerpt proved with strings as ropes: every text slice shown lies inside the line of the error (un-clipped '
+                'slices are safety VCs) and text[pos] stands at the caret offset, in all four abbreviation regimes; _raise_errorN raises ParseError '
+                'with (pos, None, None) exactly at end of input; every fragment reports a failure position some sub-attempt left behind, within [0, len].',
+        'design_ref': 'DESIGN.md 6 C09',
+        'note': 'Search for the next line break known by contract (re). Message text checked structurally (pieces), not character by character. '
+                'When a run-time function leaves the executor\'s subset a bounded native stand-in (all small inputs) may still refute it; it never counts as proved.',
+    },
 }
